@@ -53,6 +53,7 @@ def _wr(oracle, tier="quick"):
 def shards(tier):
     out = _wr("writer", tier)
     out.append({"fn": "header", "consts": {"oracle": "writer"}, "timeout": 300})
+    out.append({"fn": "w_oversize", "consts": {"oracle": "writer"}, "timeout": 300})
     for kind, dm in (("code", 0), ("code", 1), ("data", 0)):
         out.append({"fn": "r_interval", "consts": {"oracle": "reader", "kind": kind, "dm": dm}, "timeout": 900})
     for which in ("isa", "ff", "bo"):
